@@ -129,3 +129,7 @@ void lemma_hash_agrees_with_equal(size_t na, size_t nb)
 void h_lemma_hash_agrees_with_equal(void) { size_t na, nb; lemma_hash_agrees_with_equal(na, nb); }
 '''},
 ]
+# thorough tier: raw headers of the real Collection found under other capitalisations (every letter once), distinct names kept apart
+NATIVE_SWEEPS = [{'name': 'header_name_case', 'driver': 'hdrname_rt', 'props': ['C16'], 'what': 'Header::Collection::addRaw + tryGetRaw (LowercaseHash / LowercaseEqual)',
+                  'argvs': [[a, b] for (a, b) in [('Content-Type', 'content-type'), ('content-type', 'CONTENT-TYPE'), ('X-Custom-Header', 'x-cUSTOM-hEADER'), ('X-A', 'X-B'), ('X-Az', 'X-A['), ('X-@', 'X-`')]
+                            + [('X-' + chr(c), 'x-' + chr(c + 32)) for c in range(65, 91)] + [('X-' + chr(c + 32), 'X-' + chr(c)) for c in range(65, 91)]]}]
